@@ -236,9 +236,15 @@ def run(ctx):
     ctx.rule("erasure", "every arm of Link erases exactly the audited static positions and keeps argument positions "
                         "(rules/golden_link.json)")
     golden.check(ctx, "erasure", "golden_link.json")
+    ctx.rule("desugaring", "every arm of the desugarer (terms, patterns, copatterns, generic bindings, parameter and existential "
+                           "telescopes) builds the audited core term from its children in the audited order: application spines nest to "
+                           "the left, parameter lists and telescopes fold from the last parameter inwards, `A -> B` / `A * B` become "
+                           "Pi / Sigma over an annotated hole, thunk / ret carry their prim annotation, `do` keeps binder / bindee / tail, "
+                           "`define` seals its bindee, `that` placements become mobile forms (rules/golden_desugar.json)")
+    golden.check(ctx, "desugaring", "golden_desugar.json")
     rule_env_flow(ctx)
     rule_siblings(ctx)
     rule_copattern_tuples(ctx)
     ctx.assume("the audited references are a correct CK machine for CBPV (by inspection of eval.rs / link.rs against the "
-               "repository's DESIGN.md); host operations are C06; desugaring order is not covered")
+               "repository's DESIGN.md); host operations are C06; of the elaboration of copattern clauses only the argument / pattern tuple agreement is covered")
     return {}
